@@ -680,8 +680,12 @@ class Normalizer:
             for d in self.defs[ctx_def.rel]:
                 if d.owner is None and d.cls is None and d.name == call_func.id:
                     return d if self.transparent(d) else None
-            return None
+            # a new helper of ANOTHER module of the package, imported by name (`from .utils.fs import write_at`)
+            return self._imported_helper(ctx_def.rel, call_func.id)
         if isinstance(call_func, ast.Attribute) and isinstance(call_func.value, ast.Name):
+            imported = self._imported_module_helper(ctx_def.rel, call_func.value.id, call_func.attr)
+            if imported is not None:
+                return imported
             sn = self._self_name(ctx_def)
             top = ctx_def
             while top.owner is not None:
@@ -695,6 +699,58 @@ class Normalizer:
                     if base != sn and not d.is_static:
                         return None
                     return d
+        return None
+
+    def _module_of_import(self, rel, level, module):
+        """repository-relative path of the module an import statement of `rel` names (package-internal imports only)"""
+        base = os.path.dirname(rel)
+        if level == 0:
+            if not module or not module.startswith('replicat'):
+                return None
+            parts = module.split('.')
+            base = ''
+        else:
+            for _ in range(level - 1):
+                base = os.path.dirname(base)
+            parts = module.split('.') if module else []
+        cand = os.path.join(base, *parts)
+        for p_ in (cand + '.py', os.path.join(cand, '__init__.py')):
+            if p_ in self.trees:
+                return p_
+        return None
+
+    def _imported_helper(self, rel, name):
+        tree = self.trees.get(rel)
+        if tree is None:
+            return None
+        for st in tree.body:
+            if isinstance(st, ast.ImportFrom):
+                for a in st.names:
+                    if (a.asname or a.name) == name:
+                        target = self._module_of_import(rel, st.level, st.module)
+                        if target is None or target == rel:
+                            return None
+                        for d in self.defs.get(target, []):
+                            if d.owner is None and d.cls is None and d.name == a.name:
+                                return d if self.transparent(d) else None
+                        return None
+        return None
+
+    def _imported_module_helper(self, rel, modname, attr):
+        """`fs.write_at(..)` with `from .utils import fs` / `from . import utils`"""
+        tree = self.trees.get(rel)
+        if tree is None:
+            return None
+        for st in tree.body:
+            if isinstance(st, ast.ImportFrom):
+                for a in st.names:
+                    if (a.asname or a.name) == modname:
+                        target = self._module_of_import(rel, st.level, ((st.module + '.') if st.module else '') + a.name)
+                        if target is None or target == rel:
+                            continue
+                        for d in self.defs.get(target, []):
+                            if d.owner is None and d.cls is None and d.name == attr:
+                                return d if self.transparent(d) else None
         return None
 
     # --------------------------------------------------------------- inlining
